@@ -176,7 +176,17 @@ def alpha(m, r):
     d = ds[path[-1]]
     old = r.choice(d[1][1])
     new = None
-    for c in r.sample(FRESH, len(FRESH)):
+    # adversarial fresh names: prefixes / fragments of the identifiers the declaration mentions
+    import re as _re
+    words = sorted(set(_re.findall(r"'([A-Za-z_][A-Za-z0-9_]*)'", repr(d))))
+    frags = []
+    for w in words:
+        frags += [w[:1], w[:2], w[:3], w[1:3], w[-2:]]
+    frags = [f for f in frags if _re.fullmatch(r'[A-Za-z_][A-Za-z0-9_]*', f or '') and f not in G.KEYWORDS]
+    pool = r.sample(FRESH, len(FRESH))
+    if frags and r.random() < 0.7:
+        pool = r.sample(frags, min(len(frags), 8)) + pool
+    for c in pool:
         if not mentions(d, c):
             new = c
             break
@@ -215,7 +225,7 @@ def run(rep, tier, seed, replay=None, proof_ok=True):
     jobs = []
     for k in range(n):
         r = random.Random('c13/%d/%d' % (seed, k))
-        prof = G.Profile(p_template=0.8, max_tvalues=4)
+        prof = G.Profile(p_template=0.8, max_tvalues=4, p_scoped=0.2 if k % 4 == 0 else 0.02)
         g = G.Gen(r, prof)
         m = g.module()
         variants = {'base': m, 'subset': subset(m, r), 'perm': permute(m, r)}
@@ -250,6 +260,13 @@ def run(rep, tier, seed, replay=None, proof_ok=True):
                 t1, (st1, p1, d1, _) = vs[name]
                 if st1 != 'ok':
                     rep.bump('%s_%s' % (name, st1))
+                    # the variant fails where the base succeeds: explained only if the model fails too
+                    m1 = model.ask('inst', [q, d1]) if d1 is not None else 'parse'
+                    if d1 is not None and (m1.startswith('ok') and not any(mk in m1 for mk in ic.MARKERS)):
+                        if shown < 3:
+                            shown += 1
+                            rep.violation({'kind': 'counterexample', 'what': 'variant (%s) fails: %s' % (name, st1),
+                                           'input': t0, 'variant': t1})
                     continue
                 b1 = blocks(p1)
                 if name == 'alpha':
